@@ -1137,14 +1137,6 @@ func prefixReparseOracle(res *corr.Result, in string, body []byte, r0 readResult
 	}
 	res.Distribution["read-proper-prefix-returned"]++
 	p := r0.buf
-	if bytes.Contains(p, []byte("\\\n")) {
-		// Known quirk shared with go/build's reader: inside an interpreted string the escape branch
-		// swallows the byte after a backslash unchecked, so `"a\<NL>import"` passes as one literal and the
-		// prefix can end inside a later Go token (witness: "package i\nimport.\"a+b\\\nimport\"\";\nconst c = 1\n").
-		// Not judged here (reported to the coordinator); counted so that the exemption stays visible.
-		res.Distribution["read-prefix-oracle-exempt-backslash-newline"]++
-		return
-	}
 	errsI, litsI := headerParse(body)
 	errsP, litsP := headerParse(p)
 	n := len(p)
@@ -1342,6 +1334,8 @@ func runC18(res *corr.Result, r *rand.Rand, tier, model string) int {
 	add([]byte("\xef\xbb"), nil, false)
 	add([]byte("package p\nimport \"a\"\nimport . \"b\"\nimport _ `c`\nimport x \"d\"\nvar v int\n"), []string{`"a"`, `"b"`, "`c`", `"d"`}, true)
 	for _, s := range []string{
+		// regression inputs of the repaired backslash-newline defect (escaped newline inside an interpreted literal)
+		"package i\nimport.\"a+b\\\nimport\"\";\nconst c = 1\n", "package p\nimport \"a\\\n\"b\"\nvar x = 1\n",
 		"package p\nimport \"fmt\nimport \"os\"\nvar x = 1\n", "package p\nimport `fmt\nimport `os`\nvar x = 1\n",
 		"package p\nimport (\n\t\"fmt\n\t\"os\"\n)\nvar x = \"y\"\n", "package p\nimport \"a\\\n\"\nvar x = 1\n", "package p\nimport \"a\nimport \"b\nimport \"c\"\nfunc f() {}\n",
 		"package p\nimport x \"fmt\n\"os\"\n", "package _x\nimport\r\n\"a\\\n\"b\"\nvar (\n\ti = 1\n)\n", "package p\nimport \"a\" var x = 1\n", "package p import \"a\"\nvar x = 1\n", "package p\nimport \"a\"\n$\n",
